@@ -37,8 +37,12 @@ Definition get_arg (h : list (Z * Z)) (row : list cell) (f : Z) : arg :=
   | Some c => ACell (nth (Z.to_nat c) row CEmpty)
   end.
 
-(** f"{value:.11f}": exact half-even rounding of the double to 11 decimals, in grid units *)
-Definition num11 (num den : Z) : Z := rhe_div (num * pow10 gen_parse_decimals) den false.
+(** f"{value:.11f}": exact half-even rounding of the double to [gen_fmt_decimals] decimals (the
+    precision is read from the source by the translator), expressed in 1e-11 grid units *)
+Definition num11 (num den : Z) : Z :=
+  if gen_fmt_decimals <=? 11
+  then rhe_div (num * pow10 gen_fmt_decimals) den false * pow10 (11 - gen_fmt_decimals)
+  else rhe_div (num * pow10 11) den false.
 
 (** numeric parameter: Ok None (absent / empty), Ok (Some units), or error (a string) *)
 Definition num_arg (a : arg) : result (option Z) :=
@@ -46,7 +50,7 @@ Definition num_arg (a : arg) : result (option Z) :=
   | ANone => Ok None
   | ACell CEmpty => Ok None
   | ACell (CNum n d) => if d <=? 0 then Err EValue else Ok (Some (num11 n d))
-  | ACell (CBool b) => Ok (Some (if b then pow10 gen_parse_decimals else 0))
+  | ACell (CBool b) => Ok (Some (if b then pow10 11 else 0))
   | ACell (CStr _) => Err EValue
   end.
 Definition mandatory_num (a : arg) : result Z :=
@@ -94,61 +98,67 @@ Definition notes_ok (a : arg) : bool :=
 
 Definition row_too_short (h : list (Z * Z)) (row : list cell) : bool := Z.of_nat (length row) <=? max_col h.
 
-Definition create_in (cfg : pcfg) (rowno : Z) (row : list cell) : result raw_in :=
-  let h := pc_in cfg in
-  if row_too_short h row then Err EValue else
-  do ts <- ts_arg cfg (get_arg h row 0);
-  do _ <- member_arg (get_arg h row 1) (pc_assets cfg);
-  do ex <- member_arg (get_arg h row 2) (pc_exchanges cfg);
-  do ho <- member_arg (get_arg h row 3) (pc_holders cfg);
-  do ty <- ttype_arg (get_arg h row 4);
-  do spot <- mandatory_num (get_arg h row 5);
-  do cin <- mandatory_num (get_arg h row 6);
-  do cfee <- optional_num (get_arg h row 7);
-  do f1 <- optional_num (get_arg h row 8);
-  do f2 <- optional_num (get_arg h row 9);
-  do f3 <- optional_num (get_arg h row 10);
-  if negb (notes_ok (get_arg h row 12)) then Err EType else
+Definition create_in_args (cfg : pcfg) (rowno : Z) (ga : Z -> arg) : result raw_in :=
+  do ts <- ts_arg cfg (ga 0);
+  do _ <- member_arg (ga 1) (pc_assets cfg);
+  do ex <- member_arg (ga 2) (pc_exchanges cfg);
+  do ho <- member_arg (ga 3) (pc_holders cfg);
+  do ty <- ttype_arg (ga 4);
+  do spot <- mandatory_num (ga 5);
+  do cin <- mandatory_num (ga 6);
+  do cfee <- optional_num (ga 7);
+  do f1 <- optional_num (ga 8);
+  do f2 <- optional_num (ga 9);
+  do f3 <- optional_num (ga 10);
+  if negb (notes_ok (ga 12)) then Err EType else
   Ok {| ri_row := rowno; ri_ts := ts; ri_exch := ex; ri_holder := ho; ri_type := ty; ri_spot := spot; ri_crypto_in := cin;
         ri_crypto_fee := cfee; ri_fiat_in_no_fee := f1; ri_fiat_in_with_fee := f2; ri_fiat_fee := f3 |}.
 
-Definition create_out (cfg : pcfg) (rowno : Z) (row : list cell) : result raw_out :=
-  let h := pc_out cfg in
-  if row_too_short h row then Err EValue else
-  do ts <- ts_arg cfg (get_arg h row 0);
-  do _ <- member_arg (get_arg h row 1) (pc_assets cfg);
-  do ex <- member_arg (get_arg h row 2) (pc_exchanges cfg);
-  do ho <- member_arg (get_arg h row 3) (pc_holders cfg);
-  do ty <- ttype_arg (get_arg h row 4);
-  do spot <- mandatory_num (get_arg h row 5);
-  do nofee <- mandatory_num (get_arg h row 6);
-  do fee <- mandatory_num (get_arg h row 7);
-  do w <- optional_num (get_arg h row 8);
-  do f1 <- optional_num (get_arg h row 9);
-  do f2 <- optional_num (get_arg h row 10);
-  if negb (notes_ok (get_arg h row 12)) then Err EType else
+Definition create_in (cfg : pcfg) (rowno : Z) (row : list cell) : result raw_in :=
+  let h := pc_in cfg in
+  if row_too_short h row then Err EValue else create_in_args cfg rowno (get_arg h row).
+
+Definition create_out_args (cfg : pcfg) (rowno : Z) (ga : Z -> arg) : result raw_out :=
+  do ts <- ts_arg cfg (ga 0);
+  do _ <- member_arg (ga 1) (pc_assets cfg);
+  do ex <- member_arg (ga 2) (pc_exchanges cfg);
+  do ho <- member_arg (ga 3) (pc_holders cfg);
+  do ty <- ttype_arg (ga 4);
+  do spot <- mandatory_num (ga 5);
+  do nofee <- mandatory_num (ga 6);
+  do fee <- mandatory_num (ga 7);
+  do w <- optional_num (ga 8);
+  do f1 <- optional_num (ga 9);
+  do f2 <- optional_num (ga 10);
+  if negb (notes_ok (ga 12)) then Err EType else
   Ok {| ro_row := rowno; ro_ts := ts; ro_exch := ex; ro_holder := ho; ro_type := ty; ro_spot := spot;
         ro_crypto_out_no_fee := nofee; ro_crypto_fee := fee; ro_crypto_out_with_fee := w; ro_fiat_out_no_fee := f1; ro_fiat_fee := f2 |}.
 
-Definition create_intra (cfg : pcfg) (rowno : Z) (row : list cell) : result raw_intra :=
-  let h := pc_intra cfg in
-  if row_too_short h row then Err EValue else
-  do ts <- ts_arg cfg (get_arg h row 0);
-  do _ <- member_arg (get_arg h row 1) (pc_assets cfg);
-  do fe <- member_arg (get_arg h row 2) (pc_exchanges cfg);
-  do fh <- member_arg (get_arg h row 3) (pc_holders cfg);
-  do te <- member_arg (get_arg h row 4) (pc_exchanges cfg);
-  do th <- member_arg (get_arg h row 5) (pc_holders cfg);
-  match get_arg h row 6 with
+Definition create_out (cfg : pcfg) (rowno : Z) (row : list cell) : result raw_out :=
+  let h := pc_out cfg in
+  if row_too_short h row then Err EValue else create_out_args cfg rowno (get_arg h row).
+
+Definition create_intra_args (cfg : pcfg) (rowno : Z) (ga : Z -> arg) : result raw_intra :=
+  do ts <- ts_arg cfg (ga 0);
+  do _ <- member_arg (ga 1) (pc_assets cfg);
+  do fe <- member_arg (ga 2) (pc_exchanges cfg);
+  do fh <- member_arg (ga 3) (pc_holders cfg);
+  do te <- member_arg (ga 4) (pc_exchanges cfg);
+  do th <- member_arg (ga 5) (pc_holders cfg);
+  match ga 6 with
   | ANone => Err EType            (* spot_price has no default: a header without it cannot construct *)
   | a6 =>
     do spot <- optional_num a6;
-    do sent <- mandatory_num (get_arg h row 7);
-    do recv <- mandatory_num (get_arg h row 8);
-    if negb (notes_ok (get_arg h row 10)) then Err EType else
+    do sent <- mandatory_num (ga 7);
+    do recv <- mandatory_num (ga 8);
+    if negb (notes_ok (ga 10)) then Err EType else
     Ok {| rx_row := rowno; rx_ts := ts; rx_from_exch := fe; rx_from_holder := fh; rx_to_exch := te; rx_to_holder := th;
           rx_spot := spot; rx_crypto_sent := sent; rx_crypto_received := recv |}
   end.
+
+Definition create_intra (cfg : pcfg) (rowno : Z) (row : list cell) : result raw_intra :=
+  let h := pc_intra cfg in
+  if row_too_short h row then Err EValue else create_intra_args cfg rowno (get_arg h row).
 
 (** the asset cell of a data row must be the sheet's asset (entry set check) *)
 Definition asset_is (cfg : pcfg) (h : list (Z * Z)) (row : list cell) (asset : str) : bool :=
@@ -174,19 +184,20 @@ Definition fee_out (a : intx) (artificial_row : Z) : result outtx :=
 Record pstate := {
   ps_cur : option table; ps_count : Z;
   ps_ins : list intx; ps_outs : list outtx; ps_intras : list intratx;   (* insertion order *)
-  ps_art : list outtx; ps_counter : Z }.
+  ps_art : list outtx; ps_counter : Z;
+  ps_meta : list (Z * arg * arg) }.                 (* row id -> (unique_id argument, notes argument) *)
 
 Definition table_of_cell (c : cell) : option table :=
   match c with
   | CStr s =>
     let l := map lower_cp s in
-    if str_eqb l [105; 110] then Some TabIn
-    else if str_eqb l [111; 117; 116] then Some TabOut
-    else if str_eqb l [105; 110; 116; 114; 97] then Some TabIntra
+    if str_eqb l gen_kw_in then Some TabIn
+    else if str_eqb l gen_kw_out then Some TabOut
+    else if str_eqb l gen_kw_intra then Some TabIntra
     else None
   | _ => None
   end.
-Definition TABLE_END : str := [84; 65; 66; 76; 69; 32; 69; 78; 68].
+Definition TABLE_END : str := gen_table_end.
 Definition is_table_end (c : cell) : bool := match c with CStr s => str_eqb s TABLE_END | _ => false end.
 Definition is_empty_cell (c : cell) : bool := match c with CEmpty => true | CStr [] => true | _ => false end.
 
@@ -206,38 +217,46 @@ Definition constructs (cfg : pcfg) (t : table) (rowno : Z) (row : list cell) : b
 
 Definition has_row_in (r : Z) (l : list intx) : bool := existsb (fun a => i_row a =? r) l.
 
+Definition upd_state (s : pstate) (ins : list intx) (outs : list outtx) (intras : list intratx) (art : list outtx)
+  (counter : Z) (meta : list (Z * arg * arg)) : pstate :=
+  {| ps_cur := ps_cur s; ps_count := ps_count s; ps_ins := ins; ps_outs := outs; ps_intras := intras;
+     ps_art := art; ps_counter := counter; ps_meta := meta |}.
+
 Definition data_row (cfg : pcfg) (asset : str) (s : pstate) (t : table) (rowno : Z) (row : list cell) : result pstate :=
   match t with
   | TabIn =>
+    let h := pc_in cfg in
     do r <- create_in cfg rowno row;
     do a <- mk_in r;
-    if negb (asset_is cfg (pc_in cfg) row asset) then Err EValue else
+    if negb (asset_is cfg h row asset) then Err EValue else
+    let m := (rowno, get_arg h row 11, get_arg h row 12) in
     if 0 <? i_crypto_fee a then
       do a' <- split_in a;
       let id := ps_counter s - 1 in
       do o <- fee_out a id;
-      Ok {| ps_cur := ps_cur s; ps_count := ps_count s; ps_ins := ps_ins s ++ [a']; ps_outs := ps_outs s; ps_intras := ps_intras s;
-            ps_art := ps_art s ++ [o]; ps_counter := id |}
+      Ok (upd_state s (ps_ins s ++ [a']) (ps_outs s) (ps_intras s) (ps_art s ++ [o]) id
+                    (ps_meta s ++ [m; (id, get_arg h row 11, ANone)]))
     else
-      Ok {| ps_cur := ps_cur s; ps_count := ps_count s; ps_ins := ps_ins s ++ [a]; ps_outs := ps_outs s; ps_intras := ps_intras s;
-            ps_art := ps_art s; ps_counter := ps_counter s |}
+      Ok (upd_state s (ps_ins s ++ [a]) (ps_outs s) (ps_intras s) (ps_art s) (ps_counter s) (ps_meta s ++ [m]))
   | TabOut =>
+    let h := pc_out cfg in
     do r <- create_out cfg rowno row;
     do a <- mk_out r;
-    if negb (asset_is cfg (pc_out cfg) row asset) then Err EValue else
-    Ok {| ps_cur := ps_cur s; ps_count := ps_count s; ps_ins := ps_ins s; ps_outs := ps_outs s ++ [a]; ps_intras := ps_intras s;
-          ps_art := ps_art s; ps_counter := ps_counter s |}
+    if negb (asset_is cfg h row asset) then Err EValue else
+    Ok (upd_state s (ps_ins s) (ps_outs s ++ [a]) (ps_intras s) (ps_art s) (ps_counter s)
+                  (ps_meta s ++ [(rowno, get_arg h row 11, get_arg h row 12)]))
   | TabIntra =>
+    let h := pc_intra cfg in
     do r <- create_intra cfg rowno row;
     do a <- mk_intra r;
-    if negb (asset_is cfg (pc_intra cfg) row asset) then Err EValue else
-    Ok {| ps_cur := ps_cur s; ps_count := ps_count s; ps_ins := ps_ins s; ps_outs := ps_outs s; ps_intras := ps_intras s ++ [a];
-          ps_art := ps_art s; ps_counter := ps_counter s |}
+    if negb (asset_is cfg h row asset) then Err EValue else
+    Ok (upd_state s (ps_ins s) (ps_outs s) (ps_intras s ++ [a]) (ps_art s) (ps_counter s)
+                  (ps_meta s ++ [(rowno, get_arg h row 9, get_arg h row 10)]))
   end.
 
 Definition with_cur (s : pstate) (cur : option table) (count : Z) : pstate :=
   {| ps_cur := cur; ps_count := count; ps_ins := ps_ins s; ps_outs := ps_outs s; ps_intras := ps_intras s;
-     ps_art := ps_art s; ps_counter := ps_counter s |}.
+     ps_art := ps_art s; ps_counter := ps_counter s; ps_meta := ps_meta s |}.
 
 (** one sheet row (rowno is 1-based) *)
 Definition row_step (cfg : pcfg) (asset : str) (s : pstate) (rowno : Z) (row : list cell) : result pstate :=
@@ -275,7 +294,8 @@ Fixpoint parse_rows (cfg : pcfg) (asset : str) (s : pstate) (rowno : Z) (rows : 
               end
   end.
 
-Record parsed := { pa_ins : list intx; pa_outs : list outtx; pa_intras : list intratx; pa_counter : Z }.
+Record parsed := { pa_ins : list intx; pa_outs : list outtx; pa_intras : list intratx; pa_counter : Z;
+                   pa_meta : list (Z * arg * arg) }.
 
 Definition has_dupZ (l : list Z) : bool :=
   (fix go l := match l with [] => false | x :: t => existsb (Z.eqb x) t || go t end) l.
@@ -287,7 +307,7 @@ Definition parse_sheet (cfg : pcfg) (asset : str) (counter : Z) (rows : list (li
   | None => Err EValue
   | Some _ =>
     match parse_rows cfg asset {| ps_cur := None; ps_count := 0; ps_ins := []; ps_outs := []; ps_intras := [];
-                                  ps_art := []; ps_counter := counter |} 1 rows with
+                                  ps_art := []; ps_counter := counter; ps_meta := [] |} 1 rows with
     | Err e => Err e
     | Ok s =>
       match ps_cur s with
@@ -295,7 +315,8 @@ Definition parse_sheet (cfg : pcfg) (asset : str) (counter : Z) (rows : list (li
       | None =>
         match ps_ins s with
         | [] => Err EValue                                 (* IN table not found or empty *)
-        | _ => Ok {| pa_ins := ps_ins s; pa_outs := ps_outs s ++ ps_art s; pa_intras := ps_intras s; pa_counter := ps_counter s |}
+        | _ => Ok {| pa_ins := ps_ins s; pa_outs := ps_outs s ++ ps_art s; pa_intras := ps_intras s; pa_counter := ps_counter s;
+                      pa_meta := ps_meta s |}
         end
       end
     end
